@@ -79,7 +79,7 @@ func xGuardSrc(kind string, bang bool) *core.ActionSource {
 // xAccepts: does output o accept the (parsed) line?
 func xAccepts(o xOutput, m map[string]interface{}) bool {
 	if o.inverted {
-		return m["bad"] == o.key
+		return xMatchesPattern(o, m)
 	}
 	if m["k"] != o.key {
 		return false
@@ -101,7 +101,15 @@ func xAccepts(o xOutput, m map[string]interface{}) bool {
 
 func xMatchesPattern(o xOutput, m map[string]interface{}) bool {
 	if o.inverted {
-		return m["bad"] == o.key
+		if m["bad"] != o.key {
+			return false
+		}
+		if o.withVar {
+			// a forbidden pattern with a guard: only what the guard accepts is forbidden
+			v, hasV := m["v"].(float64)
+			return hasV && v >= 2
+		}
+		return true
 	}
 	if m["k"] != o.key {
 		return false
@@ -158,7 +166,7 @@ func runC19(c *sim.Ctx, t *testing.T) {
 			}
 		}
 		// faults
-		st.fault = []string{"none", "none", "dup", "drop", "dup+drop", "reorder", "late", "noise", "forbidden", "guard-reject", "reject-all", "forbidden-in-required", "exit-early"}[c.Intn(13, "fault")]
+		st.fault = []string{"none", "none", "dup", "drop", "dup+drop", "reorder", "late", "noise", "forbidden", "guard-reject", "reject-all", "forbidden-in-required", "exit-early", "forbidden-seen-before", "forbidden-guarded"}[c.Intn(15, "fault")]
 		req := len(st.lines)
 		switch st.fault {
 		case "dup":
@@ -205,6 +213,42 @@ func runC19(c *sim.Ctx, t *testing.T) {
 			bad := xLine{text: fmt.Sprintf(`{"bad":"s%d"}`, i), delay: 5 * time.Millisecond, why: "forbidden"}
 			k := c.Intn(len(st.lines), "forbiddenpos") // before the last required line
 			st.lines = append(st.lines[:k], append([]xLine{bad}, st.lines[k:]...)...)
+		case "forbidden-seen-before":
+			// the forbidden line of this step was already seen, as noise, during the step before
+			hasInv := false
+			for _, o := range st.outputs {
+				if o.inverted {
+					hasInv = true
+				}
+			}
+			if !hasInv {
+				st.outputs = append(st.outputs, xOutput{key: fmt.Sprintf("s%d", i), inverted: true})
+			}
+			bad := xLine{text: fmt.Sprintf(`{"bad":"s%d"}`, i), delay: 5 * time.Millisecond, why: "forbidden (and seen before)"}
+			if i > 0 && len(steps[i-1].lines) > 0 {
+				prev := steps[i-1]
+				prev.lines = append([]xLine{{text: bad.text, delay: 5 * time.Millisecond, why: "noise here, forbidden in the next step"}}, prev.lines...)
+				if prev.exits {
+					prev.exitAfter++
+				}
+			} else {
+				st.fault = "forbidden"
+			}
+			k := c.Intn(len(st.lines), "forbiddenpos")
+			st.lines = append(st.lines[:k], append([]xLine{bad}, st.lines[k:]...)...)
+		case "forbidden-guarded":
+			// the forbidden pattern has a guard: a first candidate is rejected, a later one accepted
+			var rest []xOutput
+			for _, o := range st.outputs {
+				if !o.inverted {
+					rest = append(rest, o)
+				}
+			}
+			st.outputs = append(rest, xOutput{key: fmt.Sprintf("s%d", i), inverted: true, withVar: true, guard: "atleast2"})
+			lo := xLine{text: fmt.Sprintf(`{"bad":"s%d","v":1}`, i), delay: 5 * time.Millisecond, why: "matches the forbidden pattern, rejected by its guard"}
+			hi := xLine{text: fmt.Sprintf(`{"bad":"s%d","v":2}`, i), delay: 5 * time.Millisecond, why: "forbidden"}
+			k := c.Intn(len(st.lines), "forbiddenpos")
+			st.lines = append(st.lines[:k], append([]xLine{lo, hi}, st.lines[k:]...)...)
 		case "forbidden-in-required":
 			// the message that completes the step also matches the forbidden pattern (listed after the expected ones)
 			hasInv := false
@@ -271,6 +315,9 @@ func runC19(c *sim.Ctx, t *testing.T) {
 			pat := map[string]interface{}{"k": o.key}
 			if o.inverted {
 				pat = map[string]interface{}{"bad": o.key}
+				if o.withVar {
+					pat["v"] = "?v"
+				}
 			} else if o.withVar && o.bang {
 				pat["v"] = "?v!"
 			} else if o.withVar {
